@@ -10,10 +10,10 @@ PROPS["C11"] = {
     "assumptions": ["project() in checks/ix_filter.hpp is written from the property statement; truthiness and equals-true follow the library's documented as<bool>()/== true",
                     "memory compared only when the filtered run consumed no more input than the unfiltered one (counting reader)"],
     "quick": [dict(_C11, args=["--input-nodes=3", "--filter-nodes=3", "--malformed-len=3"]),
-              dict(_C11, args=["--input-nodes=2", "--filter-nodes=3", "--malformed-len=2"],
+              dict(_C11, args=["--input-nodes=2", "--filter-nodes=3", "--malformed-len=2", "--spellings=none"],
                    defs=["ARDUINOJSON_SLOT_ID_SIZE=1", "ARDUINOJSON_POOL_CAPACITY=3", "ARDUINOJSON_INITIAL_POOL_COUNT=3"]),
               # single-precision build: a float64 in the input is narrowed when kept and must still be skipped whole when discarded
-              dict(_C11, args=["--input-nodes=3", "--filter-nodes=2", "--malformed-len=1"], defs=["ARDUINOJSON_USE_DOUBLE=0"])],
+              dict(_C11, args=["--input-nodes=3", "--filter-nodes=2", "--malformed-len=1", "--spellings=width"], defs=["ARDUINOJSON_USE_DOUBLE=0"])],
     "thorough": [dict(_C11, args=["--input-nodes=3", "--big-input-nodes=4", "--filter-nodes=3", "--malformed-len=4"])],
     "thorough_deadline": 1800,
 }
